@@ -97,7 +97,10 @@ def gen_header(rng, hcls, payload_cls, correlation_id=None):
     return dataclasses.replace(h, **repl) if repl else h
 
 
-def gen_message(rng) -> dict:
+_BIG_SHAPE = {"name": "big", "fan": 2, "str": "big", "null_rate": 0.1, "nondefault_rate": 0.7, "budget": 30}
+
+
+def gen_message(rng, big_ok: bool = True) -> dict:
     """(header, payload) of a request or response class, or a bare entity;
     optionally with a size prefix as in the docs."""
     t = tables()
@@ -106,7 +109,8 @@ def gen_message(rng) -> dict:
         key = rng.choice(t["pairs"])
         cls = (t["req"] if rng.random() < 0.5 else t["resp"])[key]
         hcls = cls.__header_schema__
-        payload = gen.gen_instance(rng, cls, _small_shape(rng))
+        # now and then a payload with one very large chunk (>= 16 KiB string/bytes/records)
+        payload = gen.gen_instance(rng, cls, _BIG_SHAPE if (big_ok and rng.random() < 0.08) else _small_shape(rng))
         header = gen_header(rng, hcls, cls)
         return {"entities": [[universe.qualname(hcls), gen.to_tree(header)], [universe.qualname(cls), gen.to_tree(payload)]],
                 "size_prefix": rng.random() < 0.5}
@@ -452,7 +456,7 @@ def run_l2(run_seed: int, cfg: dict) -> L2Result:
             for k in range(n_req):
                 key = rng.choice(t["pairs"])
                 req_cls, resp_cls = t["req"][key], t["resp"][key]
-                req = gen.gen_instance(rng, req_cls, _small_shape(rng))
+                req = gen.gen_instance(rng, req_cls, _BIG_SHAPE if rng.random() < 0.03 else _small_shape(rng))
                 corr = i32(rng.randint(0, 2**31 - 1))
                 hdr = gen_header(rng, req_cls.__header_schema__, req_cls, correlation_id=corr)
                 log["client_sent"].append((hdr, req))
